@@ -97,6 +97,9 @@ def case_strategy(draw):
         # the sending thread first tried to store an object that cannot be encoded (value out of range for its
         # VR), got the error, and carries on: later stores are not affected by the failed one
         'prior_failure': draw(st.sampled_from([False, False, True])),
+        # the storing entity also forwards what it receives: it was made a storage USER of the class before it
+        # was made the provider (the order of the two configuration calls is the application's business)
+        'scu_first': draw(st.sampled_from([False, False, True])),
     }
 
 
@@ -134,6 +137,8 @@ def run_case(case):
                     return fp, start
                 Srv.get_file = get_file
             ae = Srv('SRV', 0, [ts], case['server_max'])
+        if case.get('scu_first'):
+            ae.add_scu(sopclass.storage_scu, [sop])
         ae.add_scp(sopclass.storage_scp)
         old_name = os.path.join(tmp, '%s.dcm' % case['ds']['SOPInstanceUID'])
         old_content = b'stored by an earlier run of the server ' * 20
@@ -272,7 +277,7 @@ FIXED = [
     {'ds': {'SOPClassUID': svc.CT_STORAGE, 'SOPInstanceUID': '1.2.826.0.1.3680043.9.15.7', 'PatientName': 'After^Failure',
             'PatientID': 'p7', 'EncapsulatedDocument': {'len': 500, 'salt': 4}},
      'ts': 1, 'client_max': 16384, 'server_max': 16384, 'source': 'memory', 'reception': 'tempfile',
-     'outcome': ['status', 0], 'repeat': 2, 'align': None, 'prior_failure': True},
+     'outcome': ['status', 0], 'repeat': 2, 'align': None, 'prior_failure': True, 'scu_first': True},
     # PDUs far larger than what one TCP read delivers on loopback
     {'ds': {'SOPClassUID': svc.CT_STORAGE, 'SOPInstanceUID': '1.2.826.0.1.3680043.9.15.4', 'PatientName': 'Big^Pdu',
             'EncapsulatedDocument': {'len': 1500001, 'salt': 5}},
